@@ -10,6 +10,8 @@ import Reamber.Lemmas.O2JPair
 import Reamber.Lemmas.O2JHeader
 import Reamber.Lemmas.O2JFrame
 import Reamber.Lemmas.O2JRead
+import Reamber.Lemmas.O2JX
+import Reamber.Lemmas.O2JEncode
 import Reamber.Spec.Timing
 
 namespace Reamber.O2J
@@ -427,5 +429,240 @@ theorem posTime_eq_timeAt (init : Rat) (evs : List (Rat × Rat)) (p : Rat) :
   exact integ_eq_timeAtAux evs 0 0 init p
 
 example : posTime 120 [(3 / 2, 60), (3, 240)] (9 / 2) = 10500 := by decide +kernel
+
+
+/-! ### every float32 as a tempo value: NaN, ±inf, subnormals, −0.0 (`Model/O2JX.lean`, `Lemmas/O2JX.lean`) -/
+
+theorem mapE_ok_of_all {α β} (f : α → Except Err β) : ∀ (l : List α), (∀ a ∈ l, ∃ b, f a = .ok b) → ∃ r, mapE f l = .ok r := by
+  intro l
+  induction l with
+  | nil => intro _; exact ⟨[], rfl⟩
+  | cons a rest ih =>
+    intro h
+    obtain ⟨b, hb⟩ := h a (by simp)
+    obtain ⟨r, hr⟩ := ih (fun x hx => h x (by simp [hx]))
+    exact ⟨b :: r, by simp [mapE, hb, hr, bind, Except.bind]⟩
+
+theorem specLevel_ok (q : Rat) (pk : List RawPkg) (h : wfLevel pk = true) : ∃ o, specLevel q pk = .ok o := by
+  unfold wfLevel at h
+  simp only [Bool.and_eq_true] at h
+  obtain ⟨_, hp⟩ := h
+  unfold specLevel
+  cases hpf : pairFrom [] (pk.flatMap specSlots) with
+  | error e => rw [hpf] at hp; cases hp
+  | ok ns => simp only [bind, Except.bind]; exact ⟨_, rfl⟩
+
+/-- **A well-formed file is read**: on every well-formed byte string the reader returns a result (no exception, and the
+rational model does not decline) -/
+theorem wellFormed_reads (bs : List Nat) (h : wellFormed bs = true) : ∃ out, readFile bs = .ok out := by
+  rw [read_spec bs h]
+  unfold wellFormed at h
+  unfold specSet
+  cases hS : specMeta bs with
+  | error e => rw [hS] at h; cases h
+  | ok hdr =>
+    rw [hS] at h
+    simp only [] at h
+    simp only [bind, Except.bind]
+    cases hF : frameLevels (packageCounts hdr) (List.drop headerSize bs) with
+    | none => rw [hF] at h; cases h
+    | some lvls =>
+      cases hT : headerTempo hdr with
+      | none => rw [hF, hT] at h; cases h
+      | some q =>
+        rw [hF, hT] at h
+        simp only [Bool.and_eq_true, decide_eq_true_eq] at h
+        obtain ⟨r, hr⟩ := mapE_ok_of_all (specLevel q) lvls (fun l hl => specLevel_ok q l (List.all_eq_true.mp h.2 l hl))
+        simp only [hr]
+        exact ⟨_, rfl⟩
+
+/-- **`read_spec` for the reader over the whole float32 range**: on a well-formed byte string the extended model — the
+one compared with the implementation when a file carries NaN / ±inf tempos — returns the specification's set, every
+time and tempo a finite number -/
+theorem read_spec_X (bs : List Nat) (h : wellFormed bs = true) : readFileX bs = (specSet bs).map FileOut.toX := by
+  obtain ⟨out, ho⟩ := wellFormed_reads bs h
+  rw [readFileX_refines bs (by rw [ho]; simp), read_spec bs h]
+
+/-- a NaN tempo poisons: with a NaN tempo in effect, or a NaN time reached, every later time is NaN — no rational
+timeline can be demanded of such a file (`Spec.wellFormed` excludes it) -/
+theorem nan_tempo_poisons (st : StX) (p : Rat) (h : st.bpm = .nan ∨ st.offset = .nan) : segTimeX st p = .nan := by
+  unfold segTimeX
+  rcases h with h | h
+  · rw [h]; cases st.offset <;> rfl
+  · rw [h]; rfl
+
+/-- an infinite tempo (either sign) stops the clock: while it is in effect every position has the time of the event -/
+theorem inf_tempo_stands_still (o : Rat) (m : Rat) (s : Bool) (p : Rat) : segTimeX ⟨.fin o, m, .inf s⟩ p = .fin o := by
+  simp [segTimeX, advX, XT.add, Rat.add_zero]
+
+/-- −0.0 is 0: as a tempo event it is skipped like +0.0 (`bpm == 0`), as header tempo it raises `ZeroDivisionError`;
+subnormals are decoded exactly (`decodeF32_parts` with e = 0) -/
+theorem neg_zero_is_zero : decodeF32 [0, 0, 0, 0x80] = .fin 0 ∧ f32OfParts 1 0 0 = .fin 0 ∧ f32OfParts 0 0 0 = .fin 0 ∧
+    bpmsAuxX 3 2 0 [[0, 0, 0, 0x80], [0, 0, 0, 0]] = [] ∧
+    decodeF32 [1, 0, 0, 0x80] = .fin (-1 / 2 ^ 149) ∧ decodeF32 [0xFF, 0xFF, 0x7F, 0] = .fin ((2 ^ 23 - 1) / 2 ^ 149) := by
+  decide +kernel
+
+def sampleNaN : List Nat :=
+    [7, 0, 0, 0, 111, 106, 110, 0, 154, 153, 57, 64, 3, 0, 0, 0, 0, 0, 240, 66, 1, 0, 2, 0, 3, 0, 0, 0, 1, 0, 0, 0,
+    2, 0, 0, 0, 3, 0, 0, 0, 4, 0, 0, 0, 5, 0, 0, 0, 6, 0, 0, 0, 7, 0, 0, 0, 8, 0, 0, 0, 9, 0, 0, 0, 0, 0, 0, 0, 6,
+    0, 0, 0, 0, 0, 0, 0, 29, 0, 7, 0, 0, 0, 0, 0, 0, 0, 0, 0, 0, 0, 0, 0, 0, 0, 0, 0, 0, 0, 0, 0, 5, 0, 0, 0, 6, 0,
+    0, 0, 84, 0, 0, 0, 0, 0, 0, 0, 0, 0, 0, 0, 0, 0, 0, 0, 0, 0, 0, 0, 0, 0, 0, 0, 0, 0, 0, 0, 0, 0, 0, 0, 0, 0, 0,
+    0, 0, 0, 0, 0, 0, 0, 0, 0, 0, 0, 0, 0, 0, 0, 0, 0, 0, 0, 0, 0, 0, 0, 0, 0, 0, 0, 0, 0, 65, 0, 0, 0, 0, 0, 0, 0,
+    0, 0, 0, 0, 0, 0, 0, 0, 0, 0, 0, 0, 0, 0, 0, 0, 0, 0, 0, 0, 0, 0, 0, 0, 67, 0, 0, 0, 0, 0, 0, 0, 0, 0, 0, 0, 0,
+    0, 0, 0, 0, 0, 0, 0, 0, 0, 0, 0, 0, 0, 0, 0, 0, 0, 0, 0, 111, 46, 111, 106, 109, 0, 0, 0, 0, 0, 0, 0, 0, 0, 0,
+    0, 0, 0, 0, 0, 0, 0, 0, 0, 0, 0, 0, 0, 0, 0, 0, 0, 9, 0, 0, 0, 10, 0, 0, 0, 11, 0, 0, 0, 12, 0, 0, 0, 44, 1, 0,
+    0, 144, 1, 0, 0, 244, 1, 0, 0, 88, 2, 0, 0, 0, 0, 0, 0, 2, 0, 4, 0, 1, 0, 72, 0, 0, 0, 0, 0, 1, 0, 72, 0, 0, 0,
+    0, 0, 1, 0, 0, 0, 1, 0, 2, 0, 0, 0, 0, 0, 0, 0, 192, 127, 2, 0, 0, 0, 8, 0, 3, 0, 1, 0, 72, 0, 1, 0, 72, 0, 1,
+    0, 72, 0, 3, 0, 0, 0, 1, 0, 1, 0, 0, 0, 112, 67, 3, 0, 0, 0, 3, 0, 2, 0, 1, 0, 72, 2, 0, 0, 0, 0, 4, 0, 0, 0, 3,
+    0, 2, 0, 0, 0, 0, 0, 1, 0, 72, 3]
+
+def sampleInf : List Nat :=
+    [7, 0, 0, 0, 111, 106, 110, 0, 154, 153, 57, 64, 3, 0, 0, 0, 0, 0, 240, 66, 1, 0, 2, 0, 3, 0, 0, 0, 1, 0, 0, 0,
+    2, 0, 0, 0, 3, 0, 0, 0, 4, 0, 0, 0, 5, 0, 0, 0, 6, 0, 0, 0, 7, 0, 0, 0, 8, 0, 0, 0, 9, 0, 0, 0, 0, 0, 0, 0, 6,
+    0, 0, 0, 0, 0, 0, 0, 29, 0, 7, 0, 0, 0, 0, 0, 0, 0, 0, 0, 0, 0, 0, 0, 0, 0, 0, 0, 0, 0, 0, 0, 5, 0, 0, 0, 6, 0,
+    0, 0, 84, 0, 0, 0, 0, 0, 0, 0, 0, 0, 0, 0, 0, 0, 0, 0, 0, 0, 0, 0, 0, 0, 0, 0, 0, 0, 0, 0, 0, 0, 0, 0, 0, 0, 0,
+    0, 0, 0, 0, 0, 0, 0, 0, 0, 0, 0, 0, 0, 0, 0, 0, 0, 0, 0, 0, 0, 0, 0, 0, 0, 0, 0, 0, 0, 65, 0, 0, 0, 0, 0, 0, 0,
+    0, 0, 0, 0, 0, 0, 0, 0, 0, 0, 0, 0, 0, 0, 0, 0, 0, 0, 0, 0, 0, 0, 0, 0, 67, 0, 0, 0, 0, 0, 0, 0, 0, 0, 0, 0, 0,
+    0, 0, 0, 0, 0, 0, 0, 0, 0, 0, 0, 0, 0, 0, 0, 0, 0, 0, 0, 111, 46, 111, 106, 109, 0, 0, 0, 0, 0, 0, 0, 0, 0, 0,
+    0, 0, 0, 0, 0, 0, 0, 0, 0, 0, 0, 0, 0, 0, 0, 0, 0, 9, 0, 0, 0, 10, 0, 0, 0, 11, 0, 0, 0, 12, 0, 0, 0, 44, 1, 0,
+    0, 144, 1, 0, 0, 244, 1, 0, 0, 88, 2, 0, 0, 0, 0, 0, 0, 2, 0, 4, 0, 1, 0, 72, 0, 0, 0, 0, 0, 1, 0, 72, 0, 0, 0,
+    0, 0, 1, 0, 0, 0, 1, 0, 2, 0, 0, 0, 0, 0, 0, 0, 128, 255, 2, 0, 0, 0, 8, 0, 3, 0, 1, 0, 72, 0, 1, 0, 72, 0, 1,
+    0, 72, 0, 3, 0, 0, 0, 1, 0, 1, 0, 0, 0, 112, 67, 3, 0, 0, 0, 3, 0, 2, 0, 1, 0, 72, 2, 0, 0, 0, 0, 4, 0, 0, 0, 3,
+    0, 2, 0, 0, 0, 0, 0, 1, 0, 72, 3]
+
+
+/-- per level: note times, long-note lengths, tempo points (value, time) -/
+def viewX (o : FileOutX) : List (List XT × List (Option XT) × List (F32 × XT)) :=
+  o.levels.map (fun l => (l.notes.map (·.time), l.notes.map (·.len), l.bpms.map (fun b => (b.bpm, b.time))))
+
+/-- **Dialect fact (NaN), with its witness.**  `sampleNaN` is a complete .ojn (header tempo 120; second difficulty: two
+hits in measure 0, a tempo package in measure 1 whose second float is NaN, three hits in measure 2, tempo 240 in
+measure 3, a long note from measure 3 to 4.5).  It is NOT `wellFormed`; the rational model declines; the reader
+(extended model, agreeing with the implementation: corpus of `harness/props/c07.py`) raises nothing, keeps the NaN
+event, and gives every position from measure 1.5 on the time NaN — the notes before it keep their times.  No
+assignment of rational times satisfies the property on this file: the exclusion of NaN from `wellFormed` is necessary. -/
+theorem nan_tempo_counterexample :
+    wellFormed sampleNaN = false ∧
+    (match readFile sampleNaN with | .error .nonfinite => true | _ => false) = true ∧
+    ((readFileX sampleNaN).toOption.map viewX).getD [] =
+      [([], [], [(.fin 120, .fin 0)]),
+            ([.fin 0, .fin 1000, .nan, .nan, .nan, .nan], [none, none, none, none, none, some .nan],
+             [(.fin 120, .fin 0), (.nan, .fin 3000), (.fin 240, .nan)]),
+            ([], [], [(.fin 120, .fin 0)])] := by
+  refine ⟨by decide +kernel, by decide +kernel, by decide +kernel⟩
+
+/-- **Dialect fact (±inf), with its witness.**  The same file with −inf in place of NaN: not `wellFormed`, the
+rational model declines, the reader keeps the event and the clock stands still at 3000 ms until the next tempo event
+(measure 3): the three hits of measure 2 and the long-note head all sit at 3000 ms; the long note's length (1.5
+measures at 240) is unaffected. -/
+theorem inf_tempo_counterexample :
+    wellFormed sampleInf = false ∧
+    (match readFile sampleInf with | .error .nonfinite => true | _ => false) = true ∧
+    ((readFileX sampleInf).toOption.map viewX).getD [] =
+      [([], [], [(.fin 120, .fin 0)]),
+            ([.fin 0, .fin 1000, .fin 3000, .fin 3000, .fin 3000, .fin 3000], [none, none, none, none, none, some (.fin 1500)],
+             [(.fin 120, .fin 0), (.inf true, .fin 3000), (.fin 240, .fin 3000)]),
+            ([], [], [(.fin 120, .fin 0)])] := by
+  refine ⟨by decide +kernel, by decide +kernel, by decide +kernel⟩
+
+/-- `O2JMapSet.read_file(path)` is `read` of the file's bytes: the file system is a parameter; nothing else enters -/
+theorem readFileAt_eq (fs : String → Option (List Nat)) (path : String) (bs : List Nat) (h : fs path = some bs) :
+    readFileAt fs path = some (readFileX bs) := by
+  simp [readFileAt, h]
+
+
+/-! ### round trip: the by-the-book encoder, then the reader (`Lemmas/O2JEncode.lean`) -/
+
+/-- **Round trip for all abstract charts.**  For every valid abstract chart — any header values, three difficulties of
+any number of note and tempo packages, any slot counts, tempo events anywhere, long notes across packages and
+measures, any trailing bytes — the reader applied to the bytes of the by-the-book encoder returns the chart's own
+timeline `aTimeline` (header attributes as given, per difficulty the paired notes and tempo points at `posTime` of
+their positions `measure + i/n`), which is computed from the abstract chart alone.  So `Spec.wellFormed` contains the
+image of the encoder (`wellFormed_encodeChart`) and `read_spec` is non-vacuous at that scale. -/
+theorem read_encode (c : AChart) (q : Rat) (hv : c.Valid q) : readFile (encodeChart c) = aTimeline q c := by
+  rw [read_spec _ (wellFormed_encodeChart c q hv), specSet_encodeChart c q hv]
+
+/-- … and that timeline exists: the read succeeds, with the abstract header and exactly three levels -/
+theorem read_encode_ok (c : AChart) (q : Rat) (hv : c.Valid q) :
+    ∃ outs, readFile (encodeChart c) = .ok ⟨headerAttrs c.header c.counts, outs⟩ ∧ outs.length = 3 := by
+  obtain ⟨outs, h1, h2⟩ := aTimeline_ok c q hv
+  exact ⟨outs, by rw [read_encode c q hv, h1], h2⟩
+
+/-- the same for the reader over the whole float32 range -/
+theorem readX_encode (c : AChart) (q : Rat) (hv : c.Valid q) :
+    readFileX (encodeChart c) = (aTimeline q c).map FileOut.toX := by
+  rw [read_spec_X _ (wellFormed_encodeChart c q hv), specSet_encodeChart c q hv]
+
+/-- **the map-set level metadata comes back**: title / artist / creator (their bytes without NULs and non-ASCII bytes —
+`decode("ascii", errors="ignore")`), genre, the four levels, the song id and the header tempo of the abstract header
+are the attributes of the result -/
+theorem read_encode_metadata (c : AChart) (q : Rat) (hv : c.Valid q) (out : FileOut)
+    (ho : readFile (encodeChart c) = .ok out) :
+    lookupMeta out.header "title" = some (.text (c.header.title.filter (fun b => b ≠ 0 && b < 128))) ∧
+    lookupMeta out.header "artist" = some (.text (c.header.artist.filter (fun b => b ≠ 0 && b < 128))) ∧
+    lookupMeta out.header "creator" = some (.text (c.header.creator.filter (fun b => b ≠ 0 && b < 128))) ∧
+    lookupMeta out.header "genre" = some (.int c.header.genre) ∧
+    lookupMeta out.header "level" = some (.list (c.header.level.map Field.int)) ∧
+    lookupMeta out.header "song_id" = some (.int c.header.songId) ∧
+    lookupMeta out.header "bpm" = some (.flt (.fin q)) ∧
+    packageCounts out.header = c.counts := by
+  obtain ⟨outs, h1, _⟩ := read_encode_ok c q hv
+  rw [h1] at ho
+  cases ho
+  refine ⟨lookup_title_headerAttrs _ _, lookup_artist_headerAttrs _ _, lookup_creator_headerAttrs _ _,
+    lookup_genre_headerAttrs _ _, lookup_level_headerAttrs _ _, lookup_song_id_headerAttrs _ _, ?_,
+    packageCounts_headerAttrs _ _⟩
+  rw [lookup_bpm_headerAttrs, hv.tempo]
+
+/-- … with the text codec as a parameter: whatever codec `enc`/`dec` the writer of the file used for the title, if the
+encoded title fits the 64-byte field and consists of non-NUL ASCII bytes, the title attribute decodes to the title -/
+theorem read_encode_title_codec (enc : String → List Nat) (dec : List Nat → String) (hdec : ∀ s, dec (enc s) = s)
+    (t : String) (c : AChart) (q : Rat) (hv : c.Valid q) (ht : c.header.title = enc t)
+    (hclean : ∀ b ∈ enc t, b ≠ 0 ∧ b < 128) (out : FileOut) (ho : readFile (encodeChart c) = .ok out) :
+    ∃ bs, lookupMeta out.header "title" = some (.text bs) ∧ dec bs = t := by
+  refine ⟨enc t, ?_, hdec t⟩
+  rw [(read_encode_metadata c q hv out ho).1, ht, text_clean _ hclean]
+
+/-- non-vacuity of `read_encode`: a valid abstract chart (difficulty 2: a long note across two packages, a tempo
+event, a hit; empty difficulties 1 and 3; three trailing bytes) and what the reader makes of its bytes -/
+def sampleChart : AChart := ⟨sampleHeader, [[], exLevel, []], [1, 2, 3]⟩
+
+theorem sampleChart_valid : sampleChart.Valid 120 where
+  header := by decide
+  three := rfl
+  sizes := by
+    intro l hl
+    simp only [sampleChart, List.mem_cons, List.mem_nil_iff, or_false] at hl
+    rcases hl with rfl | rfl | rfl <;> decide
+  pkgs := by
+    intro l hl p hp
+    simp only [sampleChart, List.mem_cons, List.mem_nil_iff, or_false] at hl
+    rcases hl with rfl | rfl | rfl
+    · cases hp
+    · exact exLevel_valid p hp
+    · cases hp
+  tempo := by decide +kernel
+  tempo_ne := by decide
+  paired := by
+    intro l hl
+    simp only [sampleChart, List.mem_cons, List.mem_nil_iff, or_false] at hl
+    rcases hl with rfl | rfl | rfl
+    · exact ⟨[], rfl⟩
+    · cases h : pairFrom [] (exLevel.flatMap aSlots) with
+      | ok ns => exact ⟨ns, rfl⟩
+      | error e =>
+        have : (pairFrom [] (exLevel.flatMap aSlots)).toOption.isSome = true := by decide +kernel
+        rw [h] at this
+        cases this
+    · exact ⟨[], rfl⟩
+  closed := by
+    intro l hl
+    simp only [sampleChart, List.mem_cons, List.mem_nil_iff, or_false] at hl
+    rcases hl with rfl | rfl | rfl <;> decide +kernel
+
+example : ((readFile (encodeChart sampleChart)).toOption.map
+    (fun o => o.levels.map (fun l => (l.notes.map (fun n => (n.time, n.len)), l.bpms.map (·.time))))).getD []
+    = [([], [0]), ([(1000, some 1500), (2000, none)], [0, 3000]), ([], [0])] := by
+  decide +kernel
 
 end Reamber.O2J
